@@ -25,6 +25,7 @@ from cassandra import type_codes, DriverException
 from cassandra import (Unavailable, WriteTimeout, ReadTimeout,
                        WriteFailure, ReadFailure, FunctionFailure,
                        AlreadyExists, InvalidRequest, Unauthorized,
+                       CDCWriteFailure,
                        UnsupportedOperation, UserFunctionDescriptor,
                        UserAggregateDescriptor, SchemaTargetType)
 from cassandra.cqltypes import (AsciiType, BytesType, BooleanType,
@@ -333,6 +334,9 @@ class WriteFailureMessage(RequestExecutionException):
 class CDCWriteException(RequestExecutionException):
     summary = 'Failed to execute write due to CDC space exhaustion.'
     error_code = 0x1600
+
+    def to_exception(self):
+        return CDCWriteFailure(self.summary_msg())
 
 
 class SyntaxException(RequestValidationException):
